@@ -69,7 +69,13 @@ func runC02Followup(c *Ctx, w *ATWorld) {
 									errs[k] = err
 									return
 								}
-								if _, err = tx.ExecContext(ctx, q, k+1); err != nil {
+								// the statements of a local transaction begun under the global transaction belong to it
+								// whatever context they are issued with: tx.Exec(query) is tx.ExecContext(context.Background(), query)
+								stmtCtx := ctx
+								if fault == "none" && k == 1 {
+									stmtCtx = context.Background()
+								}
+								if _, err = tx.ExecContext(stmtCtx, q, k+1); err != nil {
 									errs[k] = err
 									tx.Rollback()
 									return
